@@ -438,3 +438,69 @@ func c17ForeignRefs(c *wk.Ctx) {
 		}
 	}
 }
+
+// c17DeepPaths: the offending element lies far down a recursive value (2 path segments per level, up to 120
+// levels): the path names every container on the way, however many there are.
+func c17DeepPaths(c *wk.Ctx) {
+	prop := func(t schema.Type, req bool) *schema.PropertySchema {
+		return schema.NewPropertySchema(t, nil, req, nil, nil, nil, nil, nil)
+	}
+	var t *schema.ScopeSchema
+	if p, site, msg, _ := wk.Guard(func() {
+		t = schema.NewScopeSchema(schema.NewObjectSchema("Node", map[string]*schema.PropertySchema{
+			"name":     prop(schema.NewStringSchema(schema.IntPointer(1), schema.IntPointer(8), nil), true),
+			"children": prop(schema.NewListSchema(schema.NewRefSchema("Node", nil), nil, nil), false),
+			"byName":   prop(schema.NewMapSchema(schema.NewStringSchema(nil, nil, nil), schema.NewRefSchema("Node", nil), nil, nil), false)}))
+	}); p {
+		c.Violation("C17:directed-shape-not-built:"+site, "the hand-written recursive scope could not be built: "+msg, nil)
+		return
+	}
+	descr := "Node{name! string[1,8], children: list[ref Node], byName: map[string, ref Node]}"
+	for _, depth := range []int{3, 15, 16, 17, 31, 32, 33, 40, 64, 120} {
+		for _, bad := range []struct {
+			kind string
+			v    any
+		}{{"wrong-type", []any{"x"}}, {"above-max", "much too long"}, {"below-min", ""}, {"missing-required", nil}} {
+			for variant := 0; variant < 3; variant++ {
+				// build bottom-up; the path is known by construction
+				leaf := map[string]any{"name": "leaf"}
+				if bad.v == nil {
+					delete(leaf, "name")
+				} else {
+					leaf["name"] = bad.v
+				}
+				var cur any = leaf
+				var rev [][]string
+				for lvl := depth - 1; lvl >= 0; lvl-- {
+					viaList := variant == 0 || (variant == 2 && lvl%2 == 0)
+					node := map[string]any{"name": "n"}
+					if viaList {
+						node["children"] = []any{map[string]any{"name": "sib"}, cur}
+						rev = append(rev, []string{"children", "1"})
+					} else {
+						key := fmt.Sprintf("k%d", lvl)
+						node["byName"] = map[string]any{key: cur, "other": map[string]any{"name": "sib"}}
+						rev = append(rev, []string{"byName", key})
+					}
+					cur = node
+				}
+				var path []string
+				for i := len(rev) - 1; i >= 0; i-- {
+					path = append(path, rev[i]...)
+				}
+				if bad.v != nil {
+					path = append(path, "name")
+				}
+				raw := cur
+				site := c17Site{path: path, chain: []string{"recursive", fmt.Sprintf("depth-%d", depth)}, kind: bad.kind}
+				if bad.v == nil {
+					// a missing required property is reported at the object, naming the property
+					site.path = append(append([]string{}, path...), "name")
+				}
+				c17Judge(c, t, descr+fmt.Sprintf(" depth %d", depth), "(nested value)", site, "Unserialize", func() error { _, err := t.Unserialize(gen.CopyRaw(raw)); return err })
+				c17Judge(c, t, descr+fmt.Sprintf(" depth %d", depth), "(nested value)", site, "Validate", func() error { return t.Validate(gen.CopyRaw(raw)) })
+				c.Count("deep_path_injections")
+			}
+		}
+	}
+}
